@@ -1555,6 +1555,8 @@ func walkState(repo string) (string, error) {
 	var writes []site
 	var filterShape, wired string
 	var entrySites, recoverSites, wholeWrites []string
+	var bypasses, loaderTables []string
+	newFilterSeen := false
 	for _, e := range ents {
 		name := e.Name()
 		if e.IsDir() || !strings.HasSuffix(name, ".go") || strings.HasSuffix(name, "_test.go") || strings.HasPrefix(name, "verif_hooks") {
@@ -1563,6 +1565,27 @@ func walkState(repo string) (string, error) {
 		f, err := parser.ParseFile(fset, filepath.Join(dir, name), nil, 0)
 		if err != nil {
 			return "", err
+		}
+		for _, d := range f.Decls {
+			gd, ok := d.(*ast.GenDecl)
+			if !ok {
+				continue
+			}
+			for _, sp := range gd.Specs {
+				ts, ok := sp.(*ast.TypeSpec)
+				if !ok || ts.Name.Name != "irLoader" {
+					continue
+				}
+				if st, ok := ts.Type.(*ast.StructType); ok {
+					for _, fl := range st.Fields.List {
+						if _, isMap := fl.Type.(*ast.MapType); isMap {
+							for _, nm := range fl.Names {
+								loaderTables = append(loaderTables, nm.Name+" "+wkSrc(fset, fl.Type))
+							}
+						}
+					}
+				}
+			}
 		}
 		isCtx := func(e ast.Expr) (string, bool) {
 			if se, ok := e.(*ast.SelectorExpr); ok && (se.Sel.Name == "deadcode" || se.Sel.Name == "currentFunc") {
@@ -1656,6 +1679,58 @@ func walkState(repo string) (string, error) {
 			}
 		}
 		if fd := wkFindFunc(f, "irLoader", "newFilter"); fd != nil {
+			// every filter closure is built by the case of its operation: nothing in front of the `switch filter.Op` hands out
+			// `result`, nothing behind it touches result.fn or keeps it anywhere (a memo table keyed by the filter's source
+			// text would serve one group's `skip()` to another group, whose local func of that name has another body)
+			newFilterSeen = true
+			sw := -1
+			for i, st := range fd.Body.List {
+				if ss, ok := st.(*ast.SwitchStmt); ok && ss.Init == nil && ss.Tag != nil && wkSrc(fset, ss.Tag) == "filter.Op" {
+					if sw >= 0 {
+						bypasses = append(bypasses, "second switch on filter.Op")
+					}
+					sw = i
+				}
+			}
+			if sw < 0 {
+				bypasses = append(bypasses, "no top-level switch on filter.Op")
+			}
+			for i, st := range fd.Body.List {
+				switch {
+				case i < sw:
+					ast.Inspect(st, func(n ast.Node) bool {
+						switch n := n.(type) {
+						case *ast.ReturnStmt:
+							for _, r := range n.Results {
+								if strings.HasPrefix(wkSrc(fset, r), "result") {
+									bypasses = append(bypasses, "before the switch: "+wkSrc(fset, n))
+								}
+							}
+						case *ast.AssignStmt:
+							for _, l := range n.Lhs {
+								if strings.HasPrefix(wkSrc(fset, l), "result.") {
+									bypasses = append(bypasses, "before the switch: "+wkSrc(fset, n))
+								}
+							}
+						}
+						return true
+					})
+				case i > sw && sw >= 0:
+					src := wkSrc(fset, st)
+					okTail := src == "return result, nil"
+					if ifs, ok := st.(*ast.IfStmt); ok && ifs.Init == nil && ifs.Else == nil && wkSrc(fset, ifs.Cond) == "result.fn == nil" && len(ifs.Body.List) == 1 {
+						if rs, ok := ifs.Body.List[0].(*ast.ReturnStmt); ok && len(rs.Results) == 2 && strings.HasPrefix(wkSrc(fset, rs.Results[1]), "l.errorf(") {
+							okTail = true
+						}
+					}
+					if !okTail {
+						if len(src) > 120 {
+							src = src[:120]
+						}
+						bypasses = append(bypasses, "behind the switch: "+strings.Join(strings.Fields(src), " "))
+					}
+				}
+			}
 			ast.Inspect(fd, func(n ast.Node) bool {
 				cc, ok := n.(*ast.CaseClause)
 				if !ok || len(cc.List) != 1 || wkSrc(fset, cc.List[0]) != "ir.FilterDeadcodeOp" {
@@ -1672,13 +1747,15 @@ func walkState(repo string) (string, error) {
 	if filterShape == "" || filterShape == "unknown" {
 		return "", fmt.Errorf("makeDeadcodeFilter: body not understood")
 	}
-	if wired == "" {
+	if wired == "" || !newFilterSeen {
 		return "", fmt.Errorf("newFilter: no case for ir.FilterDeadcodeOp")
 	}
 	var sb strings.Builder
 	fmt.Fprintf(&sb, walkerHeader, "walkstate", "ruleguard/*.go (writers of filterParams.deadcode / currentFunc), filters.go:makeDeadcodeFilter, ir_loader.go:newFilter")
 	fmt.Fprintf(&sb, "Definition gen_deadcode_filter_accepts_iff_flag : bool := %v.\n", filterShape == "accepts-iff-flag")
 	fmt.Fprintf(&sb, "Definition gen_deadcode_op_wired : bool := %v.\n", wired == "ok")
+	fmt.Fprintf(&sb, "(* irLoader.newFilter: ways around the case of the filter's operation (results handed out in front of the switch on\n   filter.Op, statements behind it other than the nil check and the final return) *)\nDefinition gen_newfilter_bypasses : list string := %s.\n", wkCoqStrList(bypasses))
+	fmt.Fprintf(&sb, "(* table-typed fields of the loader (a place to keep filters between groups) *)\nDefinition gen_loader_tables : list string := %s.\n", wkCoqStrList(loaderTables))
 	var outside []string
 	inWalker := map[string]int{}
 	for _, w := range writes {
